@@ -38,4 +38,29 @@ Section Bridge.
     - intros X. apply in_app_or in X. destruct X; [contradiction|]. apply (Hd a); [now left | assumption].
     - apply IH; auto. intros p Hp. apply Hd. now right.
   Qed.
+
+  (* consumers: with C11's derived targets the distinctness premise of the --no-overwrite equivalences is discharged *)
+  Theorem no_overwrite_ok_iff_c11 : forall render e, render_independent render -> env_wf e -> forall s c,
+    c_types c = derived_types ->
+    NoDup (map fst (support_selection (c_omit c) (c_sersup c) (c_typesup c))) ->
+    (forall p, In p (map fst (support_selection (c_omit c) (c_sersup c) (c_typesup c))) -> ~ In p (c_types c)) ->
+    c_dryrun c = false -> c_allow c = false -> no_external (c_filepps c) = true -> compatible e c c -> links_clear e c ->
+    (forall p, In p (targets c) -> ready e s p = true) ->
+    (snd (step render e s c) = Ok <-> forall p, In p (targets c) -> s p = None).
+  Proof.
+    intros render e Hi Hw s c Ht Hs Hd Hdry Ha Hne Hc Lc Hr.
+    apply (RegenThm.no_overwrite_ok_iff render e Hi Hw); auto. now apply c12_targets_distinct.
+  Qed.
+
+  Theorem no_overwrite_error_iff_c11 : forall render e, render_independent render -> env_wf e -> forall s c,
+    c_types c = derived_types ->
+    NoDup (map fst (support_selection (c_omit c) (c_sersup c) (c_typesup c))) ->
+    (forall p, In p (map fst (support_selection (c_omit c) (c_sersup c) (c_typesup c))) -> ~ In p (c_types c)) ->
+    c_dryrun c = false -> c_allow c = false -> no_external (c_filepps c) = true -> compatible e c c -> links_clear e c ->
+    (forall p, In p (targets c) -> ready e s p = true) ->
+    (snd (step render e s c) = Err EExists <-> exists p, In p (targets c) /\ s p <> None).
+  Proof.
+    intros render e Hi Hw s c Ht Hs Hd Hdry Ha Hne Hc Lc Hr.
+    apply (RegenThm.no_overwrite_error_iff render e Hi Hw); auto. now apply c12_targets_distinct.
+  Qed.
 End Bridge.
